@@ -145,8 +145,8 @@ def run_c24(ctx):
                         "DDL and dolt_* procedures only outside START TRANSACTION; REPLACE / ON DUPLICATE KEY UPDATE only where at most one row clashes and no child references the row",
                         "row-level merges are generated only when our side of the table carries no violation records (artifact merging is C43 territory)",
                         "data conflicts of dolt_merge are not kept (sessions run with dolt_allow_commit_conflicts = 0 and merge with force only when no conflict arises)"]
-    sims = [{"cfg": "c24_sim_txn.cfg", "num": ctx.q(70, 900), "depth": 16, "bindings": C24_BIND, "max": ctx.q(260, 4000)},
-            {"cfg": "c24_sim_mrg.cfg", "num": ctx.q(90, 1200), "depth": 9, "bindings": C24_BIND, "max": ctx.q(300, 5000), "seed_off": 1000}]
+    sims = [{"cfg": "c24_sim_txn.cfg", "num": ctx.q(70, 400), "depth": 16, "bindings": C24_BIND, "max": ctx.q(260, 1200)},
+            {"cfg": "c24_sim_mrg.cfg", "num": ctx.q(90, 600), "depth": 9, "bindings": C24_BIND, "max": ctx.q(300, 1600), "seed_off": 1000}]
     replay_sims(ctx, "Constraints.tla", binary, "cons", sims, c24_case, c24_corrupt, C24_CRIT,
                 require=["Commit:constraint", "Commit:ok", "Merge:ok", "Merge:constraint"])
 
@@ -203,8 +203,8 @@ def run_c25(ctx):
                         "not generated: merges that would violate the unique index (C24), row-level merges across DROP COLUMN and of the keyless table when both "
                         "sides changed it (C29/C27), cherry-pick/revert/rebase that stop on a conflict (C31)",
                         "a commit's root is read once, when the commit is first bound (commits are immutable, content-addressed)"]
-    sims = [{"cfg": "c25_sim_mix.cfg", "num": ctx.q(40, 500), "depth": 24, "bindings": C25_BIND, "max": ctx.q(150, 2500)},
-            {"cfg": "c25_sim_mrg.cfg", "num": ctx.q(60, 800), "depth": 20, "bindings": C25_BIND, "max": ctx.q(220, 4000), "seed_off": 1000}]
+    sims = [{"cfg": "c25_sim_mix.cfg", "num": ctx.q(70, 300), "depth": 24, "bindings": C25_BIND, "max": ctx.q(150, 900)},
+            {"cfg": "c25_sim_mrg.cfg", "num": ctx.q(110, 500), "depth": 20, "bindings": C25_BIND, "max": ctx.q(220, 1400), "seed_off": 1000}]
     replay_sims(ctx, "RepoIndex.tla", binary, "index", sims, c25_case, c25_corrupt, C25_CRIT,
                 require=["Merge:ok", "Merge:conflict", "Resolve:ok", "CherryPick:ok", "Revert:ok", "Rebase:ok", "AddIndex:ok", "DropC2:ok", "KUpd:ok"])
 
@@ -262,7 +262,7 @@ def c47_corrupt(case):
 
 def run_c47(ctx):
     _simple_run(ctx, "DroppedDBs.tla", "dropdb", ["c47_exh_quick.cfg"], ["c47_exh_thorough.cfg"],
-                [{"cfg": "c47_sim.cfg", "num": ctx.q(60, 700), "depth": 10, "bindings": DROPDB_BIND, "max": ctx.q(120, 1500)}],
+                [{"cfg": "c47_sim.cfg", "num": ctx.q(60, 400), "depth": 10, "bindings": DROPDB_BIND, "max": ctx.q(120, 800)}],
                 dropdb_case, c47_corrupt, ["Undrop:ok", "Undrop:exists"],
                 ["CreateDB:ok", "DropDB:ok", "Undrop:ok", "Undrop:exists", "Purge:ok", "Undrop:nodropped"],
                 ("behaviours = TLC simulation of DroppedDBs.tla (CREATE DATABASE in both spellings, content changes, DROP DATABASE, dolt_undrop, "
@@ -288,7 +288,7 @@ def c46r_corrupt(case):
 def run_c46_repo(ctx):
     """Repository-level phase of C46 (call from checks/c46.py after the pattern phase: `_bj.run_c46_repo(ctx)`)."""
     _simple_run(ctx, "RepoIgnore.tla", "ignore", ["c46r_exh_quick.cfg"], ["c46r_exh_thorough.cfg"],
-                [{"cfg": "c46r_sim.cfg", "num": ctx.q(60, 800), "depth": 16, "bindings": IGNORE_BIND, "max": ctx.q(200, 3000)}],
+                [{"cfg": "c46r_sim.cfg", "num": ctx.q(60, 400), "depth": 16, "bindings": IGNORE_BIND, "max": ctx.q(200, 1200)}],
                 ignore_case, c46r_corrupt, ["AddAll:ok", "CommitAll:ok", "Clean:ok"],
                 ["AddAll:ok", "CommitAll:ok", "Clean:ok", "PutPat:ok", "Rename:ok"],
                 ("repository phase: behaviours = TLC simulation of RepoIgnore.tla (create/drop/modify/rename tables, dolt_ignore rows, dolt_add('.'), "
@@ -311,7 +311,7 @@ def c37_corrupt(case):
 
 def run_c37(ctx):
     _simple_run(ctx, "SchemaDDL.tla", "ddl", ["c37_exh_quick.cfg"], ["c37_exh_thorough.cfg"],
-                [{"cfg": "c37_sim.cfg", "num": ctx.q(60, 800), "depth": 16, "bindings": DDL_BIND, "max": ctx.q(150, 2500)}],
+                [{"cfg": "c37_sim.cfg", "num": ctx.q(60, 400), "depth": 16, "bindings": DDL_BIND, "max": ctx.q(150, 900)}],
                 ddl_case, c37_corrupt, ["Merge:ok"],
                 ["CreateTable:ok", "AddColumn:ok", "DropColumn:ok", "ModifyType:ok", "RenameColumn:ok", "AddIndex:ok", "AddCheck:ok", "SetDefault:ok", "Merge:ok"],
                 ("behaviours = TLC simulation of SchemaDDL.tla: line main runs CREATE TABLE / ADD COLUMN (FIRST, AFTER, last; NOT NULL; DEFAULT; collation) / DROP / "
